@@ -175,16 +175,18 @@ def replay_heap(job, obl, inputs, workdir):
     return rc == 1, out
 
 
-def mostViolated_job():
+def mostViolated_job(fl="libvpsc"):
     """IncSolver::mostViolated under contract (also run by the C01 check: the work list loses exactly the constraint that is returned)."""
     base = "#include <verif_base.h>\n"
     spec = spec_header() + rd(HERE, "safety.spec.c")
     # ---------------- IncSolver::mostViolated: all list indices in bounds (loop contract)
     c01 = _mod("C01")
+    AV = (fl == "libavoid")
+    SVx = "libavoid/vpsc.cpp" if AV else SV
     pre = prelude("vpsc.h")
-    shim_filled = c01.fill(pre, c01.SHIM_POSITION, c01.SHIM_UPOSITION, c01.SHIM_SLACK)
-    mv = slice_func(SV, r'^Constraint\* IncSolver::mostViolated\(Constraints &l\)', "IncSolver::mostViolated")
-    zero = slice_lines(SV, r'^static const double ZERO_UPPERBOUND=-1e-10;', 1, "ZERO_UPPERBOUND")
+    shim_filled = c01.fill(pre, c01.SHIM_POSITION, c01.SHIM_UPOSITION, c01.SHIM_SLACK, flavour=fl)
+    mv = slice_func(SVx, r'^Constraint\* IncSolver::mostViolated\(Constraints &l\)', "IncSolver::mostViolated")
+    zero = slice_lines(SVx, r'^static const double ZERO_UPPERBOUND=-1e-10;', 1, "ZERO_UPPERBOUND")
     # the function uses no member of IncSolver: the class qualifier is dropped so that its symbol has a single parameter
     # (goto-instrument's loop-contract symbol_map cannot name symbols containing a comma); if it ever uses a member the TU stops compiling
     mv_text = subst(mv, [(r'Constraint\* IncSolver::mostViolated\(Constraints &l\)', 'Constraint* mostViolated(Constraints &l)', 1)])
@@ -201,7 +203,7 @@ def mostViolated_job():
               'extern "C" void *w_mostViolated(void *s, void *l) { verif_g_l = l; return vpsc::mostViolated(*(vpsc::Constraints *)l); }\n')
     mv_sym = os.environ.get("VERIF_MV_SYM", "vpsc::mostViolated(ref_struct_tag(identifier=vpsc::tag-Constraints))")
     LD = "((struct{void*d;unsigned long n;unsigned long cap;}__attribute__((packed))*)verif_g_l)->d"
-    return (Job("mostViolated", "U", spec, "h_mostViolated", cxx=mv_cxx, enforce="w_mostViolated", replace=["w_slack"],
+    j = (Job("mostViolated", "U", spec, "h_mostViolated", cxx=mv_cxx, enforce="w_mostViolated", replace=["w_slack"],
                   defines=["JOB_mostViolated"], slices=[mv],
                   loops=loops_file([loop_contract(mv_sym, 0,
                                                   "index <= lSize && deleteIndex <= lSize && (deleteIndex == lSize || deleteIndex < index) && lSize == __CPROVER_loop_entry(lSize) && "
@@ -214,6 +216,14 @@ def mostViolated_job():
                   flags=["--sat-solver", "cadical"], backend="sat:cadical",
                   domain="every list length up to 10^6 (the constraints a pool of distinct live objects), every slack value, ghost list index K",
                   expect=[r'postcondition', r'loop_invariant_step', r'assertion']))
+    if AV:
+        # libavoid's private copy (namespace Avoid), textually the same function: wrappers, hook and loop-contract symbol renamed accordingly
+        import json as _json
+        j.name = "libavoid_" + j.name
+        j.cxx = j.cxx.replace("namespace vpsc", "namespace Avoid").replace("vpsc::", "Avoid::")
+        j.loops = _json.loads(_json.dumps(j.loops).replace("vpsc::", "Avoid::").replace("vpsc\\\\:\\\\:", "Avoid\\\\:\\\\:"))
+        j.domain = "[libavoid's private copy of the solver, libavoid/vpsc.cpp] " + j.domain
+    return j
 
 
 def jobs(tier):
@@ -261,6 +271,7 @@ def jobs(tier):
                       note="typedef std::list<...> ConnUpdateList replaced by an opaque three-word struct; Polygon's constructors are empty shims"))
     # ---------------- IncSolver::mostViolated (loop contract, element hook): see mostViolated_job()
     js.append(mostViolated_job())
+    js.append(mostViolated_job("libavoid"))
     c01 = _mod("C01")
     pre = prelude("vpsc.h")
     # ---------------- Blocks::cleanup: bounded stand-in (it frees through every element, DESIGN 2.9)
@@ -334,7 +345,7 @@ def jobs(tier):
     for pid in ("C05", "C16", "C01", "C20"):
         m = _mod(pid)
         for j in m.jobs(tier):
-            if j.cls != "U" or j.no_pointer_check or j.name == "mirror_layout" or j.enforce is None or j.name.startswith("worklist_pick"):
+            if j.cls != "U" or j.no_pointer_check or j.name == "mirror_layout" or j.enforce is None or "worklist_pick" in j.name:
                 continue
             j.name = "%s__%s" % (pid, j.name)
             j.count = "safety"
